@@ -248,6 +248,7 @@ def gen_history(r, P, impl):
     if impl.sch is None:
         return ops
     n_ops = r.randrange(P.min_ops, P.max_ops + 1)
+    last_query = None
     for _ in range(n_ops):
         k = r.random()
         n_live = len(impl.sch.jobs)
@@ -264,6 +265,7 @@ def gen_history(r, P, impl):
             q = r.random()
             if q < 0.4:
                 op = ("CALL", ("GETJOBS", gen_tags(r), r.random() < 0.5), [])
+                last_query = op
             elif q < 0.6:
                 op = ("CALL", ("JOBS",), [])
             else:
@@ -284,4 +286,8 @@ def gen_history(r, P, impl):
             op = ("EXEC", r.random() < P.p_force, table)
         ops.append(op)
         impl.step(op)
+        if op[0] == "EXEC" and last_query is not None and r.random() < 0.5:
+            # the same query again right after a poll (which may have retired a job it selected), nothing in between
+            ops.append(last_query)
+            impl.step(last_query)
     return ops
